@@ -3,7 +3,9 @@
    received, and whether the player was disconnected.
 
      ASend(k, sz)    the client sent its k-th custom payload (sz bytes of data)
-     ARelease        the harness let the backend proceed (it cannot be ready before)
+     ARelease        the harness let the (current) backend proceed (it cannot be ready before)
+     ALose           the backend the client was being connected to is gone (fault); what the
+                     client sent so far was meant for it and need not reach the next backend
      ARecv(k, sz)    the backend received a custom payload carrying index k, sz bytes
      ADisc           the player was disconnected
      AEnd(alive)     quiescence after a generous wait *)
@@ -17,19 +19,27 @@ VARIABLES asent,     \* sizes of the messages the client sent, in order
           apre,      \* messages / bytes the client sent before the backend was released
           apreb,
           arel,      \* the backend has been released
-          adisc      \* the player was disconnected
+          adisc,     \* the player was disconnected
+          aopt,      \* messages 1..aopt were meant for a backend that is gone (optional)
+          arelat,    \* how many messages the client had sent when the backend was released
+          aheldn,    \* of those, how many / how many bytes the backend has received: they were
+          aheldb     \* all held by the proxy at the moment of the release
 
-avars == <<asent, abytes, arecv, apre, apreb, arel, adisc>>
+avars == <<asent, abytes, arecv, apre, apreb, arel, adisc, aopt, arelat, aheldn, aheldb>>
 
 AInit == /\ asent = <<>> /\ abytes = 0 /\ arecv = 0 /\ apre = 0 /\ apreb = 0
-         /\ arel = FALSE /\ adisc = FALSE
+         /\ arel = FALSE /\ adisc = FALSE /\ aopt = 0 /\ arelat = 0 /\ aheldn = 0 /\ aheldb = 0
 
 \* the guards (what the property demands of an event), separately: the trace spec uses them
 \* to record a rejected run and go on with the next one
 GSend(k, sz) == k = Len(asent) + 1
-GRecv(k, sz) == k = arecv + 1 /\ k <= Len(asent) /\ sz = asent[k]
+\* in order, once, unaltered; only messages meant for a lost backend may be skipped; and what
+\* the proxy held when the backend was released never exceeded the caps
+GRecv(k, sz) == /\ k > arecv /\ k <= Len(asent) /\ sz = asent[k]
+                /\ k - 1 <= (IF aopt > arecv THEN aopt ELSE arecv)
+                /\ (k <= arelat) => (aheldn + 1 <= MaxCount /\ aheldb + sz <= MaxBytes)
 GDisc == Len(asent) > MaxCount \/ abytes > MaxBytes
-GEnd(alive) == /\ alive => arecv = Len(asent)
+GEnd(alive) == /\ alive => (arecv = Len(asent) \/ Len(asent) <= aopt)
                /\ ~alive => adisc
                /\ (apre > MaxCount \/ apreb > MaxBytes) => adisc
 
@@ -38,19 +48,26 @@ ASend(k, sz) == /\ GSend(k, sz)
                 /\ abytes' = abytes + sz
                 /\ IF arel THEN UNCHANGED <<apre, apreb>>
                    ELSE apre' = apre + 1 /\ apreb' = apreb + sz
-                /\ UNCHANGED <<arecv, arel, adisc>>
+                /\ UNCHANGED <<arecv, arel, adisc, aopt, arelat, aheldn, aheldb>>
 
-ARelease == arel' = TRUE /\ UNCHANGED <<asent, abytes, arecv, apre, apreb, adisc>>
+ARelease == /\ arel' = TRUE /\ arelat' = Len(asent) /\ aheldn' = 0 /\ aheldb' = 0
+            /\ UNCHANGED <<asent, abytes, arecv, apre, apreb, adisc, aopt>>
+
+\* what was queued for the lost backend need not be kept: it no longer counts as held back
+ALose == /\ aopt' = Len(asent) /\ apre' = 0 /\ apreb' = 0
+         /\ UNCHANGED <<asent, abytes, arecv, arel, adisc, arelat, aheldn, aheldb>>
 
 \* exactly once, in order: the backend receives the next message of the client's sequence
 ARecv(k, sz) == /\ GRecv(k, sz)
                 /\ arecv' = k
-                /\ UNCHANGED <<asent, abytes, apre, apreb, arel, adisc>>
+                /\ IF k <= arelat THEN aheldn' = aheldn + 1 /\ aheldb' = aheldb + sz
+                   ELSE UNCHANGED <<aheldn, aheldb>>
+                /\ UNCHANGED <<asent, abytes, apre, apreb, arel, adisc, aopt, arelat>>
 
 \* a disconnect is legitimate only when a cap can have been exceeded
 ADisc == /\ GDisc
          /\ adisc' = TRUE
-         /\ UNCHANGED <<asent, abytes, arecv, apre, apreb, arel>>
+         /\ UNCHANGED <<asent, abytes, arecv, apre, apreb, arel, aopt, arelat, aheldn, aheldb>>
 
 \* quiescence after a generous wait: a live connection got everything through; a cap
 \* exceeded while the backend was held back must have disconnected the player
